@@ -1,6 +1,7 @@
 #!/bin/bash
-# lists the seeded patches that no longer apply to /repo's current HEAD
+# lists the seeded patches (independent changes and fix reverts) that no longer apply to /repo's current HEAD
 cd /repo
-for d in /verif/seeded/*/; do
-  git apply --check "$d/patch.diff" 2>/dev/null || echo "DOES NOT APPLY: $(basename $d)"
+for d in /verif/seeded/*/ /verif/seeded/reverts/*/; do
+  [ -f "$d/patch.diff" ] || continue
+  git apply --check "$d/patch.diff" 2>/dev/null || echo "DOES NOT APPLY: ${d#/verif/seeded/}"
 done
